@@ -713,7 +713,7 @@ func (e *Emitter) emitRawStatement(rawStmt *ast.RawStatement) string {
 	if shouldEmitLineMarkers(e.enableLineMarkers, e.inputFilepath) {
 		lines := strings.Split(rawStmt.Value, "\n")
 		for i, line := range lines {
-			emitLineMarker(&sb, rawStmt.Token.LineNumber+i, e.inputFilepath)
+			emitLineMarker(&sb, rawStmt.ValueToken.LineNumber+i, e.inputFilepath)
 			sb.WriteString(fmt.Sprintf("%s\n", line))
 		}
 	} else {
